@@ -36,6 +36,7 @@ def shards(tier, seed):
         for t in [(3, 0, 0), (2, 0, 1), (1, 1, 1)]:
             sh += mk('d=3: canonical subsets of <=2 blades (3 pqr configurations)', spaces.cfg_pqr(*t), ('S', 2), ('S', 2), 6)
         sh += mk('custom basis 2DPGA: subsets of <=2 blades', spaces.NAMED['2DPGA'], ('S', 2), ('S', 2), 4)
+        sh += mk('d=7 (lazy blade table): 12 single blades x same', spaces.cfg_pqr(5, 1, 1), ('B12',), ('B12',), 2)
     else:
         for s in spaces.sig(2):
             sh += mk('d=2 all orderings: T(2) x T(2) complete', spaces.cfg_sig(s), ('T', None), ('T', None), 12)
